@@ -128,6 +128,8 @@ class T:
 '''
 
 STMTS = [
+    # {t}: a parameter (always a T object): attribute/method lookups only on those - CPython looks a method up before it
+    # evaluates the arguments, compiled code afterwards (C20 finding), which would reorder exceptions on other objects
     # (weight, template lines) ; placeholders: {a} {b} {c} = readable T vars, {n} = new var, {e} = T expression
     ('{n} = {e}',),
     ('{n} = {a} + {b} * {c}',),
@@ -136,9 +138,9 @@ STMTS = [
     ('{a}[{b}] = {e}',),
     ('del {a}[{b}]',),
     ('{n} = {a}[{b}:{c}]',),
-    ('{n} = {a}.p',),
-    ('{n} = {a}.meth({e})',),
-    ('{n} = {a}.meth({b}, {c}, k={e})',),
+    ('{n} = {t}.p',),
+    ('{n} = {t}.meth({e})',),
+    ('{n} = {t}.meth({b}, {c}, k={e})',),
     ('{n} = {a}({b}, *[{c}, {e}], **{{"x": {a}}})',),
     ('{n} = {a}({e})',),
     ('{n} = [{a}, {e}, {b}]',),
@@ -221,7 +223,7 @@ class Gen:
     def texpr(self):
         r = self.r
         a, b = r.choice(self.vars), r.choice(self.vars)
-        return r.choice(['%s' % a, '(%s + %s)' % (a, b), 'mk(%d)' % r.randint(0, 9), '%s[%s]' % (a, b), '%s.p' % a, '(-%s)' % a,
+        return r.choice(['%s' % a, '(%s + %s)' % (a, b), 'mk(%d)' % r.randint(0, 9), '%s[%s]' % (a, b), '%s.p' % r.choice('abc'), '(-%s)' % a,
                          '%s(%s)' % (a, b), '(%s * %s)' % (a, b)])
 
     def stmt(self, ind):
@@ -232,7 +234,7 @@ class Gen:
         for line in tpl:
             # {s}: scalar result (bool/len/hash/float...) that type inference may turn into a C variable; such
             # variables are logged but never used as operands (indexing a C bint is a compile-time error in Cython)
-            s = line.format(a=r.choice(self.vars), b=r.choice(self.vars), c=r.choice(self.vars), e=self.texpr(), n=n, n2=n2, s=n)
+            s = line.format(a=r.choice(self.vars), b=r.choice(self.vars), c=r.choice(self.vars), e=self.texpr(), n=n, n2=n2, s=n, t=r.choice('abc'))
             if '{s}' in line:
                 self.lines.append('    ' * ind + s)
                 s = 'log(%s)' % n
